@@ -1046,4 +1046,8 @@ func engineCutBegin(rng *rand.Rand, n int, tier string, o *Out) {
 		o.Hist("cutbegin:slow-consumer")
 		o.Case("c05cutbegin", id, in, out.obs, true, verdict)
 	}
+
+	// ---- lock waits on failure paths the caller runs itself (engine_cutbegin_c05v.go, sub c05vlock):
+	// giving up on a stalled connection; a connection that dies while it is being registered
+	c05vFamilies(rng, n, tier, o, &verdicts)
 }
